@@ -2,9 +2,15 @@
 use std::fmt;
 use std::num::NonZeroUsize;
 use std::panic::{RefUnwindSafe, UnwindSafe};
+#[cfg(may_verif)]
+use crate::verif::atomic::{AtomicBool, AtomicUsize, Ordering};
+#[cfg(not(may_verif))]
 use std::sync::atomic::{AtomicBool, AtomicUsize, Ordering};
 use std::sync::mpsc::{RecvError, SendError, TryRecvError};
 use std::sync::Arc;
+#[cfg(may_verif)]
+use crate::verif::thread::Thread;
+#[cfg(not(may_verif))]
 use std::thread::Thread;
 
 use super::AtomicOption;
@@ -165,11 +171,17 @@ impl<T> InnerQueue<T> {
                     let park = Park::new(self);
                     yield_with(&park);
                 } else {
+                    #[cfg(may_verif)]
+                    let blocker = Blocker::new_thread(crate::verif::thread::current());
+                    #[cfg(not(may_verif))]
                     let blocker = Blocker::new_thread(std::thread::current());
                     self.wait_co.store(blocker);
                     match self.try_recv() {
                         Err(TryRecvError::Empty) => {
                             // no data, wait for it
+                            #[cfg(may_verif)]
+                            crate::verif::thread::park();
+                            #[cfg(not(may_verif))]
                             std::thread::park();
                         }
                         data => {
